@@ -797,6 +797,7 @@ class CSSSerializer:
         if not styleText:
             if self.prefs.keepEmptyRules:
                 return f'{selectorText}{self.prefs.paranthesisSpacer}{{}}'
+            return ''
         else:
             return self._indentblock(
                 '%s%s{%s%s%s%s}'
